@@ -1,36 +1,39 @@
 #![no_main]
-//! C03 / C10 / C11 oracle: Hayson decoding is total, its image can be offered to both encoders,
-//! and accepted documents reach a re-encoding fixed point.
-use hvlib::props::{c03, c11};
-use hvlib::runner::{guarded, install_quiet_panic_hook, Rec, Verdict};
+//! C03 / C10 / C11 oracle: Hayson decoding is total, its image can be offered to the Zinc encoder
+//! and to display text, and accepted documents reach a re-encoding fixed point.
+use hvlib::props::{c03, c10, c11};
+use hvlib::runner::{install_quiet_panic_hook, Rec, Verdict};
 use libfuzzer_sys::fuzz_target;
-use libhaystack::val::Value;
-use std::sync::Once;
+use std::sync::OnceLock;
 
-static INIT: Once = Once::new();
+static PROP: OnceLock<String> = OnceLock::new();
 
 fuzz_target!(|data: &[u8]| {
-    INIT.call_once(install_quiet_panic_hook);
+    let prop = PROP.get_or_init(|| {
+        install_quiet_panic_hook();
+        std::env::var("HV_FUZZ_PROP").unwrap_or_default()
+    });
     if data.len() > 4096 {
         return;
     }
     let mut rec = Rec::new();
     rec.on = false;
-    if let Err(Verdict::Fail { sig, msg }) = c03::json_decode(data) {
-        panic!("VIOLATION {sig}: {msg}");
+    if prop.is_empty() || prop == "C03" {
+        if let Err(Verdict::Fail { sig, msg }) = c03::json_decode(data) {
+            panic!("VIOLATION {sig}: {msg}");
+        }
     }
     if let Ok(text) = std::str::from_utf8(data) {
-        if let Ok(Ok(v)) = guarded(|| serde_json::from_str::<Value>(text)) {
-            // the image of the decoder offered to the other encoder (C10)
-            if let Err(p) = guarded(|| {
-                let _ = libhaystack::encoding::zinc::encode::to_zinc_string(&v);
-                let _ = format!("{v}");
-            }) {
-                panic!("VIOLATION C10:zinc-encode-of-hayson-image: {} at {}", p.msg, p.location);
+        if prop.is_empty() || prop == "C10" {
+            if let Verdict::Fail { sig, msg } = c10::check_foreign_pub(text, &mut rec) {
+                panic!("VIOLATION {sig}: {msg}");
             }
         }
-        if let Verdict::Fail { sig, msg } = c11::hayson_fixed_point_pub(text, &mut rec) {
-            panic!("VIOLATION {sig}: {msg}");
+        if prop.is_empty() || prop == "C11" {
+            let d = c03::Doc { bytes: data.to_vec(), plan: Default::default(), origin: "hayson-libfuzzer".into() };
+            if let Verdict::Fail { sig, msg } = c11::check_fixpoint_pub(&d, &mut rec) {
+                panic!("VIOLATION {sig}: {msg}");
+            }
         }
     }
 });
